@@ -20,9 +20,17 @@ static Program gProg; static std::vector<Op> gHist; static bool gForceDefer = fa
 static void genCase(uint64_t seed, uint64_t index) {
   vf::Rng r(seed * 1000003ull + index * 7919ull + 4);
   GenOptions go; go.maxKeys = 8;
+  bool big = index % 4 == 3;   // one case in four: a build that stores well over a hundred results in its one transaction
+  if (big) { go.minKeys = 90; go.maxKeys = 160; }
   gProg = generate(r, go);
   std::vector<int> inputs, computed, extouts;
   for (size_t i = 0; i < gProg.keys.size(); ++i) { (gProg.keys[i].isInput ? inputs : computed).push_back((int)i); if (gProg.keys[i].hasExtOut) extouts.push_back((int)i); }
+  if (big && computed.size() > 1) {   // the last key requests every other computed key, so building it builds everything
+    KeyDef& root = gProg.keys[computed.back()];
+    root.dyns.clear(); root.statics.clear();
+    for (size_t q = 0; q + 1 < computed.size(); ++q) root.statics.push_back({computed[q], Normal});
+    root.statics.push_back({inputs[0], Normal});
+  }
   size_t builds = 3 + r.below(4);
   gHist.push_back({3, computed.back(), ""});
   for (size_t b = 1; b < builds; ++b) {
